@@ -238,8 +238,13 @@ package kafka
 //@   reads w.BatchTimeout
 //@ func newWriteBatch
 //@   ensures wbOK(result) && result.size == 0 && result.bytes == 0 && fresh(result) && result.msgs == nil
+//@ property C08 C07 C01 C10 C09
+// spawn: the goroutine is counted in the writer's WaitGroup before it is started (Add precedes go), so Close's
+// group.Wait() cannot return while a spawned goroutine has not run yet. No effect on memory the other contracts mention.
 //@ func (*Writer).spawn
-//@   trusted starts a goroutine under the writer's WaitGroup: no effect on memory the contracts mention
+//@   modifies (&w.group).$wgadds
+//@   callsite go requires (&w.group).$wgadds == old((&w.group).$wgadds) + 1
+//@ property C08 C07 C01 C10
 //@ func (*partitionWriter).newWriteBatch
 //@   ensures wbOK(result) && result.size == 0 && result.bytes == 0 && fresh(result) && result.msgs == nil
 
